@@ -85,6 +85,51 @@ def run_harness(name, args=(), stdin_lines=None, timeout=3600, env=None):
     return out
 
 
+def run_harness_stream(name, cases, per_case_timeout=20, env=None):
+    """Like run_harness, but the binary answers line by line and each input gets its own time limit.
+    Returns a list aligned with cases; an input that exceeds the limit (or kills the process) yields
+    {"timeout": True} / {"crashed": rc} and the remaining inputs are given to a fresh process."""
+    import select
+    build_harness([name])
+    e = dict(os.environ)
+    e["RUST_MIN_STACK"] = str(1 << 30)
+    if env:
+        e.update(env)
+    results = [None] * len(cases)
+    i = 0
+    while i < len(cases):
+        p = subprocess.Popen([hbin(name)], stdin=subprocess.PIPE, stdout=subprocess.PIPE, stderr=subprocess.DEVNULL, env=e)
+        try:
+            while i < len(cases):
+                line = (json.dumps(cases[i], separators=(",", ":")) + "\n").encode()
+                try:
+                    p.stdin.write(line)
+                    p.stdin.flush()
+                except BrokenPipeError:
+                    results[i] = {"crashed": p.poll()}
+                    i += 1
+                    break
+                r, _, _ = select.select([p.stdout], [], [], per_case_timeout)
+                if not r:
+                    results[i] = {"timeout": True}
+                    i += 1
+                    break
+                out = p.stdout.readline()
+                if not out:
+                    results[i] = {"crashed": p.wait()}
+                    i += 1
+                    break
+                results[i] = json.loads(out.decode())
+                i += 1
+        finally:
+            try:
+                p.kill()
+            except Exception:
+                pass
+            p.wait()
+    return results
+
+
 class HarnessCrash(Exception):
     def __init__(self, name, rc, stderr, stdout):
         super().__init__("harness %s exited %s: %s" % (name, rc, stderr[-500:]))
